@@ -8,6 +8,7 @@ import (
 	"bufio"
 	"encoding/hex"
 	"encoding/json"
+	"flag"
 	"fmt"
 	"os"
 	"path/filepath"
@@ -281,4 +282,33 @@ func IDs() []string {
 	}
 	sort.Strings(ids)
 	return ids
+}
+
+// Main is the entry point shared by the per-property commands cmd/vh-Cxx.
+func Main() {
+	prop := flag.String("prop", "", "property id")
+	seed := flag.Uint64("seed", 1, "PRNG seed")
+	tier := flag.String("tier", "quick", "quick|thorough")
+	dir := flag.String("dir", "", "scratch directory")
+	opsIn := flag.String("ops-in", "", "replay these ops instead of generating")
+	corpus := flag.String("corpus", "", "corpus of ops to run before the generated ones")
+	list := flag.Bool("list", false, "list registered properties")
+	flag.Parse()
+	if *list {
+		for _, id := range IDs() {
+			fmt.Println(id)
+		}
+		return
+	}
+	r, ok := Lookup(*prop)
+	if !ok {
+		fmt.Fprintln(os.Stderr, "vh: no harness registered for", *prop)
+		os.Exit(3)
+	}
+	c := &Ctx{Prop: *prop, Seed: *seed, Tier: *tier, Dir: *dir, OpsIn: *opsIn, Corpus: *corpus,
+		Rand: NewRand(*seed), Extra: map[string]any{}}
+	if err := r(c); err != nil {
+		fmt.Fprintln(os.Stderr, "vh:", err)
+		os.Exit(3)
+	}
 }
